@@ -416,7 +416,7 @@ def selfcheck_task(t, res):
 
 EXHAUSTIVE_QUICK = [(1, 1), (1, 2), (2, 1), (1, 3), (3, 1), (2, 2), (2, 3), (3, 2)]
 EXHAUSTIVE_THOROUGH = EXHAUSTIVE_QUICK + [(3, 3), (2, 4), (4, 2)]
-STRUCT_QUICK = [(4, 4), (3, 5), (5, 3), (6, 6)]
+STRUCT_QUICK = [(4, 4), (3, 5), (5, 3), (6, 6), (12, 12), (11, 12), (12, 11)]  # the last three: more than 127 cells, four families each
 STRUCT_THOROUGH = [(4, 4), (3, 5), (5, 3), (6, 6), (5, 5), (3, 4), (4, 3), (1, 7), (7, 1), (8, 8), (4, 9), (9, 4), (10, 10), (12, 5), (5, 12), (12, 12)]
 
 
@@ -513,7 +513,9 @@ def plan(tier):
         cov["G(3,3)_subset(trees, <=1 edge missing, <=1 edge)"] = len(bits)
     for (r, c) in (STRUCT_QUICK if tier == "quick" else STRUCT_THOROUGH):
         names = sorted(structured(r, c))
-        per = 4 if r * c <= 36 else 2
+        if tier == "quick" and r * c > 127:
+            names = [n for n in names if n in ("serp_rows", "serp_cols", "comb", "tree2+3")]
+        per = 4 if r * c <= 36 else (2 if r * c <= 127 else 1)
         for k in range(0, len(names), per):
             tasks.append(("structured_task", dict(shape=[r, c], names=names[k:k + per], cap=4 if tier == "quick" else 8)))
         cov[f"structured({r},{c})"] = len(names)
